@@ -270,6 +270,19 @@ def part_cli(chk, runner):
         else:
             expected.append([tuple(map(int, c.split("-"))) for c in next(qres).split(";") if c])
     cres = iter(common.run_lines(runner, clines))
+    # page-list level of handlePageSpecs (extracted Struct/PageSel.v: ps_handle): inputs are identified by file name, 0 = primary
+    plines, pidx = [], []
+    for idx, (job, exp) in enumerate(zip(jobs, expected)):
+        if job[0] != "pages":
+            continue
+        fids = {}
+        for fi, r in job[1]:
+            fids.setdefault(fi, len(fids))
+        sel_s = ";".join("%d:%s" % (fids[fi], ",".join(str(p - 1) for p in s)) for (fi, r), s in zip(job[1], exp))
+        cs = "-" if job[2] is None else ",".join(map(str, job[2] if job[2] else [1]))
+        plines.append("psel %d %s %s" % (len(files[job[1][0][0]][1]), sel_s, cs))
+        pidx.append((idx, {v: k for k, v in fids.items()}))
+    psel = dict(zip([i for i, _ in pidx], zip(common.run_lines(runner, plines), [m for _, m in pidx])))
 
     def run_job(idx):
         job = jobs[idx]
@@ -327,6 +340,17 @@ def part_cli(chk, runner):
                 fail("page attributes (MediaBox/Rotate) changed", expected=want, got=have)
             elif cnt != len(have):
                 fail("/Count disagrees with the page list", count=cnt)
+            # the extracted model of the page-list loop predicts the same sequence; no page object occupies two positions
+            mo, fmap = psel[idx]
+            mseq = [files[fmap[int(x.split(".")[0])]][1][int(x.split(".")[1])][0] for x in mo.split(",")] if mo else []
+            if mseq != [h[0] for h in have] and [w[0] for w in want] == [h[0] for h in have]:
+                chk.violation({"kind": "correspondence-broken", "correspondence": "corr:C12:pagesel", "first_case": desc,
+                               "implementation": [h[0] for h in have], "model": mo}, no_input=True)
+            root_o, objs_o = got[0][2]
+            refs = []
+            walk_pages(objs_o, root_o[b"Pages"], refs)
+            if len(set((r.n, r.g) for r in refs)) != len(refs):
+                fail("a page object occupies two positions of the output page tree")
             if len(want) > 1:
                 nontriv.add(tuple(args[1:-1]))
         elif job[0] == "split":
